@@ -57,6 +57,9 @@ class ErrorRateH(Harness):
         if c["costs"] == "sym":
             cz = [eng.grid(f"c{k}", 1, c.get("cmax", 8), 4) for k in range(3)]
             ct = [eng.scalar(x) for x in cz]
+        elif c["costs"] == "real":   # arbitrary real costs in [1/4, 4] (alignment costs may differ by arbitrarily little); float rounding outside
+            cz = [eng.real(f"c{k}", 0.25, 4) for k in range(3)]
+            ct = [eng.scalar(x) for x in cz]
         else:
             cz = [z3.RealVal(x) for x in c["costs"]]
             ct = list(c["costs"])
@@ -124,7 +127,7 @@ class ErrorRateH(Harness):
         hf, hs = self._layout(hypv, H, N)
         ref = torch.tensor(rf, dtype=torch.long).reshape(rs)
         hyp = torch.tensor(hf, dtype=torch.long).reshape(hs)
-        costs = [vals[f"c{k}"] / 4 for k in range(3)] if c["costs"] == "sym" else list(c["costs"])
+        costs = [vals[f"c{k}"] / 4 for k in range(3)] if c["costs"] == "sym" else ([float(vals[f"c{k}"]) for k in range(3)] if c["costs"] == "real" else list(c["costs"]))
         out = self._call(ref, hyp, *costs)
         o = out.reshape(-1).tolist()
         failures = []
@@ -316,7 +319,7 @@ META = dict(
         "row distribution w (solver variables), asserted equal to w*(er - mean er) with er the library's own error_rate of the same (ref,hyp) pairs, "
         "for 2-D and 3-D refs, both layouts and every reduction."),
     bounds=dict(
-        quick="error rates: R,H<=3, N=2, V=4 (fixed unequal and equal costs), symbolic costs k/4 k<=8 at R=H=2..3 N=1; loss: R,H<=2, N<=2, M in {2,3}, V=3",
+        quick="error rates: R,H<=3, N=2, V=4 (fixed unequal and equal costs), symbolic costs k/4 k<=8 at R=H=2..3 N=1, arbitrary real costs in [1/4,4] at R=H=2; loss: R,H<=2, N<=2, M in {2,3}, V=3",
         thorough="error rates: all (R,H) in 0..4 x 0..4, N=2, V<=6; symbolic costs k/4 k<=16 at R,H<=3; loss: R,H<=3, N<=2, M<=3",
     ),
     assumptions=[
@@ -324,7 +327,7 @@ META = dict(
         "softmax stubbed by its contract: w>=0, rows sum to 1 (real softmax outputs are a subset)",
         "the loss is checked relative to the library's own error_rate (itself checked against the DP oracle by the other harness)",
     ],
-    outside=["costs off the quarter grid", "lengths beyond the bound", "TorchScript variants", "gradients of the loss", "a zero-width hypothesis tensor together with exclude_last (no prefix exists; the library raises IndexError there)"],
+    outside=["float32 rounding of costs off the quarter grid (the real-cost configuration models them as reals)", "lengths beyond the bound", "TorchScript variants", "gradients of the loss", "a zero-width hypothesis tensor together with exclude_last (no prefix exists; the library raises IndexError there)"],
 )
 
 M_ = "checks.c02"
@@ -347,6 +350,7 @@ def tasks(tier):
         ts.append(task(PROP, M_, "ErrorRateH", R=3, H=3, N=1, V=4, fn="er", costs=[1.0, 1.0, 2.0], exclude_last=False, eos=0, include_eos=True, norm=False, batch_first=False, as_module=True))
         ts.append(task(PROP, M_, "ErrorRateH", R=2, H=2, N=1, V=3, fn="er", costs="sym", exclude_last=False, eos=0, include_eos=True, norm=True, batch_first=False))
         ts.append(task(PROP, M_, "ErrorRateH", R=2, H=2, N=1, V=3, fn="prefix", costs="sym", exclude_last=False, eos=0, include_eos=False, norm=False, batch_first=True))
+        ts.append(task(PROP, M_, "ErrorRateH", R=2, H=2, N=1, V=3, fn="er", costs="real", exclude_last=False, eos=None, include_eos=False, norm=False, batch_first=False))
         for R, H in ((0, 2), (2, 0), (0, 0), (1, 3)):
             ts.append(task(PROP, M_, "ErrorRateH", R=R, H=H, N=2, V=3, fn="er", costs=uneq, exclude_last=False, eos=0, include_eos=True, norm=True, batch_first=False))
             ts.append(task(PROP, M_, "ErrorRateH", R=R, H=H, N=2, V=3, fn="prefix", costs=uneq, exclude_last=False, eos=0, include_eos=True, norm=True, batch_first=False))
